@@ -70,6 +70,7 @@ int main(void) {
         if (!strcmp(op, "dump")) { dump = atoi(a1); continue; }
         if (!strcmp(op, "settid")) { t->tid = (uint8_t)atoi(a1); continue; }   /* test set-up only: used right after "new" */
         if (dead) { printf("DEAD\n"); continue; }
+        errno = ENOMEM;          /* a stale value from an earlier, unrelated call: must not influence the operation */
         if (QV_TRY(3)) {
             if (!strcmp(op, "put")) {
                 size_t nk = unhex(a1, b1), nv = unhex(a2, b2);
